@@ -1,6 +1,7 @@
 package sim
 
 import (
+	"fmt"
 	"strings"
 	"time"
 )
@@ -205,7 +206,34 @@ func (s *Sim) checkQueuePreemption(askKey string, victims []*MAlloc, now int64) 
 	if !hasGuar {
 		s.violate("C08", "asker-without-guarantee", "", "queue preemption for ask %s in %s: no queue on its path has guaranteed resources", askKey, askLeaf)
 	} else if !underGuar {
-		s.violate("C08", "asker-not-under-guarantee", "", "queue preemption for ask %s %s in %s: every guarantee on its path is already met", askKey, ask.Res, askLeaf)
+		detail := ""
+		for _, qp := range ancestors(askLeaf) {
+			if q := pre.Queues[qp]; q != nil && len(q.Guar) > 0 {
+				detail += fmt.Sprintf(" %s guaranteed %s uses %s (preempting %s)", qp, q.Guar, q.Alloc, q.Preempting)
+			}
+		}
+		for _, v := range victims {
+			detail += fmt.Sprintf(" victim %s %s in %s", v.Key, v.Res, s.appQueue(v.App))
+		}
+		// known finding: the guarantee check of the core is made over the potential victims of all queues; the
+		// victims it then takes (for room on the node) may hold none of the guaranteed types
+		kind := ""
+		holds := false
+		for _, qp := range ancestors(askLeaf) {
+			if q := pre.Queues[qp]; q != nil {
+				for t := range q.Guar {
+					for _, v := range victims {
+						if v.Res[t] > 0 {
+							holds = true
+						}
+					}
+				}
+			}
+		}
+		if !holds {
+			kind = "victims-hold-no-guaranteed-type"
+		}
+		s.violate("C08", "asker-not-under-guarantee", kind, "queue preemption for ask %s %s in %s: every guarantee on its path is already met:%s", askKey, ask.Res, askLeaf, detail)
 	}
 	// replay the victims in order on a copy of the pre-step usage (net of what is already being preempted)
 	usage := map[string]Res{}
